@@ -77,6 +77,8 @@ class World:
         if e != 1:
             return ["Pow", "Basic"]
         base = ["Basic"]
+        if f[0] == "P":
+            return ["Add", "Basic"]
         if f[0] == "A":
             return {"AntiSymmetricTensor": ["AntiSymmetricTensor", "SymbolicTensor"],
                     "Amplitude": ["Amplitude", "AntiSymmetricTensor", "SymbolicTensor"],
@@ -97,7 +99,12 @@ class World:
 
     def obj(self, p, assume):
         self.n += 1
-        return Rec(None, f"Obj#{self.n}", _kind="obj", val=p, assume=dict(assume), _classes=["Obj", "Container"])
+        cls = ["Obj", "Container"]
+        if len(p.t) == 1:
+            (m, c), = p.t.items()
+            if c == 1 and len(m) == 1 and m[0][0][0] == "P":
+                cls = ["Polynom"] + cls            # an unexpanded (a + b)**n factor
+        return Rec(None, f"Obj#{self.n}", _kind="obj", val=p, assume=dict(assume), _classes=cls)
 
     def assumptions(self, target=None, **kw):
         a = {"real": False, "sym_tensors": (), "antisym_tensors": (), "target_idx": None}
@@ -399,7 +406,7 @@ class Binding:
                 return "prefactor"
             if f[0] == "A":
                 return {"Amplitude": "amplitude", "SymmetricTensor": "symtensor", "AntiSymmetricTensor": "antisymtensor"}[f[1]]
-            return {"N": "nonsymtensor", "D": "delta", "X": "symbol"}.get(f[0]) or self._unmodelled(o, "type_as_str")
+            return {"N": "nonsymtensor", "D": "delta", "X": "symbol", "P": "polynom"}.get(f[0]) or self._unmodelled(o, "type_as_str")
         raise AnalysisError(f"TM: Obj.{name} is not modelled")
 
     def _bks(self, v):
@@ -674,13 +681,29 @@ class Binding:
     def m_expand(self, sx, args, kw):
         recv = args[0]
         k = kind(recv)
+        if k is None:
+            return NotImplemented
+        try:
+            val = recv.attrs["val"].expand()
+        except ModelError as e:
+            raise raised(e)
         if k == "expr":
+            recv.attrs["val"] = val          # Expr.expand works in place
             return recv
         if k in ("term", "obj"):
-            return self.w.expr(recv.attrs["val"], recv.attrs["assume"])
+            return self.w.expr(val, recv.attrs["assume"])
         if k == "sv":
-            return recv
+            return self.w.sv(val)
         return NotImplemented
+
+    def m_atoms(self, sx, args, kw):
+        recv = args[0]
+        if kind(recv) not in ("sv",) + CONTAINER:
+            return NotImplemented if kind(recv) is None else self._unmodelled(recv, "atoms")
+        want = [getattr(a, "short", None) or getattr(a, "name", None) for a in args[1:]]
+        if want != ["SymbolicTensor"]:
+            raise AnalysisError(f"TM: atoms({want}) is not modelled")
+        return {self.w.sv(Poly.factor(f)) for f in recv.attrs["val"].tensors_inside()}
 
     def m_subs(self, sx, args, kw):
         recv = args[0]
@@ -744,7 +767,7 @@ class Binding:
             "get_lowest_avail_indices": self.h_lowest, "get_symbols": self.h_get_symbols,
             "minimize_tensor_indices": self.h_minimize, "is_adc_amplitude": self.h_is_adc, "simplify": self.h_simplify,
             "diff": self.h_diff, "len": self.h_len, "Rational": self.h_rational,
-            "permute": self.m_permute, "copy": self.m_copy, "expand": self.m_expand, "subs": self.m_subs,
+            "permute": self.m_permute, "copy": self.m_copy, "expand": self.m_expand, "subs": self.m_subs, "atoms": self.m_atoms,
             "symmetry": self.m_symmetry, "set_target_idx": self.m_set_target_idx,
         }
         for cls in talg.TENSOR_CLASSES:
